@@ -208,13 +208,13 @@ def run(prog, chk):
     reps = [0, 1, 0x7F, 0x80, 0x81, 0x7FF, 0x800, 0x801, 0xD7FF, 0xFFFF, 0x10000, 0x10001, 0x10FFFF, 0x110000, 0x110001, 0x1FFFFF, 0xFFFFFFFF]
     spec = lambda v: 1 if v < 0x80 else 2 if v < 0x800 else 3 if v < 0x10000 else 4 if v < 0x110000 else 0
     for v in reps:
-        r = walk(enc, {cp: v})
-        if r is None or isinstance(r, tuple):
-            chk.bad("C18.c", enc, "encoder-guard-not-evaluable", "%s:%s" % (enc.file, enc.line), "the encoder's range tests could not be evaluated for code point 0x%X" % v)
+        seen_, r, fv_e = fin.walk_vals(enc, enc.entry, {cp: v}, limit=200)
+        if isinstance(r, str):
+            chk.bad("C18.c", enc, "encoder-guard-not-evaluable", "%s:%s" % (enc.file, enc.line), "the encoder's range tests could not be evaluated for code point 0x%X (%s)" % (v, r))
             continue
-        ok_ret = fin.eval_expr(enc, enc.nodes[r]["c"][0], {}) if enc.nodes[r]["c"] else None
-        # appends on the path = those that dominate the reached return
-        apps = [c for c in q.calls(enc) if enc.nodes[c].get("callee") == "String::append" and enc.dominates_pos(enc.node_pos(c), enc.node_pos(r))]
+        ok_ret = fin.eval_expr(enc, enc.nodes[r]["c"][0], fv_e) if enc.nodes[r]["c"] else None
+        # appends on the path = those evaluated on the way to the reached return
+        apps = [c for c in seen_ if enc.nodes[c]["k"] in ("CXXMemberCallExpr", "CallExpr") and enc.nodes[c].get("callee") == "String::append"]
         nb = len(apps)
         want = spec(v)
         lead_ok = True
